@@ -1,6 +1,6 @@
 #!/bin/bash
 # usage: try_mutant.sh <patch.diff> <Cxx> [tier]   -- applies the patch to /repo, runs the check, always restores /repo
-P=$1; PID=$2; TIER=${3:-quick}
+P=$(realpath "$1"); PID=$2; TIER=${3:-quick}
 cd /verif
 [ -z "$(git -C /repo status --porcelain)" ] || { echo "/repo not clean"; exit 9; }
 git -C /repo apply "$P" || { echo "patch does not apply"; exit 9; }
